@@ -122,6 +122,18 @@ func init() {
 		Rules:       []func(*World){ryIntern},
 	})
 	register(&Property{
+		ID:          "C32",
+		Explanation: "RUD: a dimension (units) checker over experimental/source's location and inverseLocation. Inside the switch clause for length.Unit X the column is a quantity in X; range keys over strings, len, slice bounds and line offsets are quantities in bytes; utf16.RuneLen is in UTF-16 units. Every `x = e`, `x += e`, `x -= e` and `a ± b` whose sides both have a known unit must combine equal units (constants are polymorphic); a per-character step inside `range <string>` may only drive a quantity in runes. Both switches must have a clause for every length.Unit constant (computed from the package).",
+		NotDecided:  "the arithmetic itself (that the computed column/offset is the right number of the right unit), the line table, behaviour for offsets that are not on a character boundary; only the necessary condition that byte offsets are never combined with counts of another unit is decided",
+		Rules:       []func(*World){rudUnits},
+	})
+	register(&Property{
+		ID:          "C40",
+		Explanation: "RIK: key discipline of internal/interval. Both collections keep their entries in an ordered map keyed by the entry's End; every Set(k, e) of an *Entry must store it under its own End (Set(e.End, e) or Set(k, &Entry{End: k})), and the End of an *Entry is never assigned after construction (splitting moves Start and creates new entries), so an entry in the tree never sits under a stale key.",
+		NotDecided:  "the interval arithmetic of Insert (which pieces are created, their bounds, the value lists and their aliasing), Get's result, the nesting classification: all value-level; only the key invariant those rely on is decided",
+		Rules:       []func(*World){rikIntervalKeys},
+	})
+	register(&Property{
 		ID:          "C41",
 		Explanation: "RZ: every panic site in internal/toposort is classified; RZ2: the iterator returned by Sorter.Sort resets all of the Sorter's scratch state (state, stack, iterating) in a deferred function of its own; RZ3: no rune iteration over string keys in package trie (insert and lookup both walk bytes); the cycle panic in Sorter.push is reached from a state that depends only on the input graph, contradicting 'on cyclic input it still terminates and yields' (known finding).",
 		NotDecided:  "ordering of the yielded nodes; longest-prefix correctness of the trie",
@@ -161,7 +173,7 @@ func init() {
 		ID:          "C12",
 		Explanation: "RQ (shared with C13): a position computed after an unregistered newline names a line/column that does not exist. RQ2: parser.Parse returns a nil AST only on the reader-error path, otherwise the returned AST is non-nil on every path (nil-check fallback dominates) and the error is exactly handler.Error(). RQ3: positions in the lexer are computed from reader offsets, never from len() of text re-encoded from runes (an invalid UTF-8 byte re-encodes to 3 bytes). RQ4: every AST field the error-tolerant grammar may leave nil (constructor parameters that receive a literal nil in the compiled actions, mapped to struct fields) is dereferenced in the AST→descriptor conversion only under a dominating nil test (including && / || short-circuit guards).",
 		NotDecided:  "panic-freedom of the generated parser and the AST constructors on arbitrary bytes; that converting the AST to a descriptor never panics",
-		Rules:       []func(*World){rqNewlines, rqParseShape, rq3ByteDistances, rq4NilableFields, rq5NilableGrammarValues, rq6TypedNilAccessors, rq7CtorNilContract, rq8NodeInfoGuards},
+		Rules:       []func(*World){rqNewlines, rqParseShape, rq3ByteDistances, rq4NilableFields, rq5NilableGrammarValues, rq6TypedNilAccessors, rq7CtorNilContract, rq8NodeInfoGuards, rq10ConstIndexGuards},
 	})
 	register(&Property{
 		ID:          "C14",
